@@ -246,7 +246,8 @@ def _subst(atom, old, new):
             break
         before = atom[j - 1] if j > 0 else " "
         after = atom[j + n] if j + n < len(atom) else " "
-        if not (before.isalnum() or before == "_") and not (after.isalnum() or after == "_"):
+        is_field = (before == ">" and j >= 2 and atom[j - 2] == "-") or before == "."
+        if not (before.isalnum() or before == "_") and not (after.isalnum() or after == "_") and not is_field:
             out.append(atom[i:j] + new)
         else:
             out.append(atom[i:j + n])
